@@ -197,8 +197,15 @@ inductive ReadResult
 
 def isZeroBlock (h : Bytes) : Bool := h.all (· = 0)
 
+/-- variants of the reader: `rejectOversizedMap = false` is the tree without the D22 repair (`fixes/C07-sparse-map-bound.patch`);
+    `xattrKeepOrder = true` is a hypothetical reader that appends xattrs (the real one prepends; the fix-point repair is on the
+    sqfs2tar side, `fixes/C04-sqfs2tar-xattr-order.patch`) -/
+structure ReadCfg where
+  rejectOversizedMap : Bool := true
+  xattrKeepOrder : Bool := false
+
 /-- the `for (;;)` loop of `read_header`; `fuel` bounds the number of 512-byte records read -/
-def readHeaderLoop (rejectOversizedMap : Bool) : Nat → Bytes → Decoded → Nat → Bool → ReadResult
+def readHeaderLoop (cfg : ReadCfg) : Nat → Bytes → Decoded → Nat → Bool → ReadResult
   | 0, _, _, _, _ => .err
   | f + 1, s, out, mask, prevZero =>
     if s.length < 512 then .eof
@@ -206,7 +213,7 @@ def readHeaderLoop (rejectOversizedMap : Bool) : Nat → Bytes → Decoded → N
       let h := s.take 512
       let s := s.drop 512
       if isZeroBlock h then
-        if prevZero then .eof else readHeaderLoop rejectOversizedMap f s out mask true
+        if prevZero then .eof else readHeaderLoop cfg f s out mask true
       else
         match checkVersion h with
         | none => .err                                             -- "input is not a ustar tar archive!"
@@ -222,7 +229,7 @@ def readHeaderLoop (rejectOversizedMap : Bool) : Nat → Bytes → Decoded → N
                 if sz < 1 ∨ sz > 65536 then .err
                 else match recordToMemory s sz with
                   | none => .err
-                  | some (p, s') => readHeaderLoop rejectOversizedMap f s' { out with link := some (cstr p) } (setFlag mask PAX_SLINK_TARGET) false
+                  | some (p, s') => readHeaderLoop cfg f s' { out with link := some (cstr p) } (setFlag mask PAX_SLINK_TARGET) false
             else if tf = 76 then                                   -- 'L' GNU long name
               match sizeField with
               | none => .err
@@ -230,11 +237,11 @@ def readHeaderLoop (rejectOversizedMap : Bool) : Nat → Bytes → Decoded → N
                 if sz < 1 ∨ sz > 65536 then .err
                 else match recordToMemory s sz with
                   | none => .err
-                  | some (p, s') => readHeaderLoop rejectOversizedMap f s' { out with name := some (cstr p) } (setFlag mask PAX_NAME) false
+                  | some (p, s') => readHeaderLoop cfg f s' { out with name := some (cstr p) } (setFlag mask PAX_NAME) false
             else if tf = 103 then                                  -- 'g' PAX global: skipped
               match sizeField with
               | none => .err
-              | some sz => readHeaderLoop rejectOversizedMap f (s.drop (sz + padding sz)) out mask false
+              | some sz => readHeaderLoop cfg f (s.drop (sz + padding sz)) out mask false
             else if tf = 120 then                                  -- 'x' PAX
               match sizeField with
               | none => .err
@@ -243,9 +250,9 @@ def readHeaderLoop (rejectOversizedMap : Bool) : Nat → Bytes → Decoded → N
                 else match recordToMemory s sz with
                   | none => .err
                   | some (p, s') =>
-                    match readPaxHeader p {} 0 with                -- `clear_header(out); set_by_pax = 0`
+                    match readPaxHeader cfg.xattrKeepOrder p {} 0 with                -- `clear_header(out); set_by_pax = 0`
                     | none => .err
-                    | some (out', mask') => readHeaderLoop rejectOversizedMap f s' out' mask' false
+                    | some (out', mask') => readHeaderLoop cfg f s' out' mask' false
             else
               -- 'S': old GNU sparse map and real size, then fall through to decode_header
               let pre : Option (Decoded × Bytes) :=
@@ -272,16 +279,18 @@ def readHeaderLoop (rejectOversizedMap : Bool) : Nat → Bytes → Decoded → N
                   | none => .err
                   | some (out, s) =>
                     -- repaired (`fixes/C07-sparse-map-bound.patch`, D22): a map whose data regions do not fit
-                    -- into the record is rejected (`rejectOversizedMap = false` models the unrepaired code)
-                    if rejectOversizedMap ∧ ¬ out.sparse.isEmpty ∧ sparseDataSum out.sparse > out.recordSize then .err
+                    -- into the record is rejected (`cfg.rejectOversizedMap = false` models the unrepaired code)
+                    if cfg.rejectOversizedMap ∧ ¬ out.sparse.isEmpty ∧ sparseDataSum out.sparse > out.recordSize then .err
                     else
                     let out := if out.sparse.isEmpty then { out with actualSize := out.recordSize } else out
                     .ok out s
 
 /-- `read_header` (repaired: oversized sparse maps are rejected) -/
-def readHeader (s : Bytes) : ReadResult := readHeaderLoop true (s.length / 512 + 2) s {} 0 false
+def readHeaderWith (cfg : ReadCfg) (s : Bytes) : ReadResult := readHeaderLoop cfg (s.length / 512 + 2) s {} 0 false
+
+def readHeader (s : Bytes) : ReadResult := readHeaderWith {} s
 
 /-- `read_header` of the unrepaired code (D22) -/
-def readHeaderCur (s : Bytes) : ReadResult := readHeaderLoop false (s.length / 512 + 2) s {} 0 false
+def readHeaderCur (s : Bytes) : ReadResult := readHeaderWith { rejectOversizedMap := false, xattrKeepOrder := false } s
 
 end Sqfs.Tar
